@@ -49,6 +49,67 @@ func (fr *Frame) call(st *State, site ssa.Instruction, cc *ssa.CallCommon) Value
 		return fr.callFn(st, site, fv.Fn, args, fv.Bindings)
 	default:
 		fv, ok := fr.get(st, cc.Value).(*FuncV)
+		if (!ok || fv.Fn == nil) && v.opaqueCalls {
+			// a call through a function value that the function under contract was handed (a callback parameter): an
+			// opaque call, anchored under the name of the variable that holds the function value
+			name := cc.Value.Name()
+			if p, isParam := cc.Value.(*ssa.Parameter); isParam {
+				name = p.Name()
+			} else if fvv, isFree := cc.Value.(*ssa.FreeVar); isFree {
+				name = fvv.Name()
+			} else if target := fr.get(st, cc.Value); target != nil {
+				// a function value that was spilled to memory (captured by a closure) and loaded back: the source
+				// variable that holds the same function value
+				best := ""
+				for k, val := range st.srcVar {
+					if val == target && !strings.HasPrefix(k, "call") && !strings.HasPrefix(k, "resultof_") && (best == "" || k < best) {
+						best = k
+					}
+				}
+				// ... or the parameter (of this function, or of an enclosing one whose closure is executing) that holds it
+				for f, d := fr, len(st.envs)-1; f != nil && d >= 0; f, d = f.caller, d-1 {
+					for _, prm := range f.fn.Params {
+						if st.envs[d][prm] == target {
+							best = prm.Name()
+						}
+					}
+				}
+				if best != "" {
+					name = best
+				}
+			}
+			v.assume("opaque call through the function value " + name + ": arbitrary results, assumed not to write through its arguments")
+			on := fr.anchorsOn()
+			if on {
+				v.lastCallQual = ""
+				for i, a := range args {
+					st.srcVar[fmt.Sprintf("callarg%d", i)] = a
+					st.srcAdr[fmt.Sprintf("callarg%d", i)] = false
+				}
+				fr.anchor(st, "beforecall", name, -1)
+			}
+			sig, _ := cc.Value.Type().Underlying().(*types.Signature)
+			var res Value
+			if sig != nil {
+				v.fresh++
+				switch sig.Results().Len() {
+				case 0:
+				case 1:
+					res = v.symValue(fmt.Sprintf("opq!%s!%d_r0", name, v.fresh), sig.Results().At(0).Type(), false)
+				default:
+					es := make([]Value, sig.Results().Len())
+					for i := range es {
+						es[i] = v.symValue(fmt.Sprintf("opq!%s!%d_r%d", name, v.fresh, i), sig.Results().At(i).Type(), false)
+					}
+					res = &TupleV{es}
+				}
+			}
+			if on {
+				fr.bindCallResult(st, res)
+				fr.anchor(st, "call", name, -1)
+			}
+			return res
+		}
 		if !ok || fv.Fn == nil {
 			unsup("indirect call through %T", fr.get(st, cc.Value))
 		}
